@@ -137,6 +137,18 @@ def dump_cont(b):
             [sx_rec(r) for r in b._records], idmap]
 
 
+def dump_node(n):
+    if isinstance(n, M.ProvRecord):
+        return ["node", "declared" if n.bundle is not None else "inferred", sx_rec(n)]
+    return ["node", "other", ["obj", type(n).__name__]]
+
+
+def dump_graph(g):
+    return ["graph", [dump_node(n) for n in g.nodes()],
+            [["edge", dump_node(u), dump_node(v), sx_rec(data.get("relation")) if isinstance(data.get("relation"), M.ProvRecord) else ["norel"]]
+             for u, v, data in g.edges(data=True)]]
+
+
 def dump_doc(d):
     return ["doc", dump_cont(d), [[k.uri if k is not None else "none", dump_cont(b)] for k, b in d._bundles.items()]]
 
@@ -198,6 +210,8 @@ def canon(t):
         return out
     if t and t[0] == "text" and len(t) == 2 and isinstance(t[1], str):
         return ["text-tokens"] + norm_provn(t[1])
+    if t and t[0] == "graph" and len(t) == 3:
+        return ["graph", sorted((canon(x) for x in t[1]), key=dumps), sorted((canon(x) for x in t[2]), key=dumps)]
     if t and t[0] == "arr":
         return ["arr"] + sorted((canon(x) for x in t[1:]), key=dumps)
     if t and t[0] == "obj":
@@ -380,6 +394,16 @@ class Impl:
         if k == "ExportProvn":
             d = self.docs[int(op[1])]; self._lib()
             return ["text", d.get_provn()]
+        if k == "ToGraph":
+            d = self.docs[int(op[1])]; self._lib()
+            from prov.graph import prov_to_graph
+            return dump_graph(prov_to_graph(d))
+        if k == "GraphRoundTrip":
+            d = self.docs[int(op[1])]; self._lib()
+            from prov.graph import prov_to_graph, graph_to_prov
+            nd = graph_to_prov(prov_to_graph(d))
+            self.docs.append(nd)
+            return ["handle", str(len(self.docs) - 1)]
         if k == "ObserveAll":
             return [dump_doc(d) for d in self.docs]
         return ["unknown-op", k]
